@@ -30,6 +30,8 @@ pub struct PeerOpts {
     /// the invoking state talks to its child (`#_kid`): on every hello / childmsg / poke it receives, i.e. also
     /// while the child session is still starting or already ending
     pub poke_kid: bool,
+    /// the delayed ticks address the session through a variable (targetexpr) that the handlers read as well
+    pub target_var: bool,
 }
 
 pub struct ChildOpts {
@@ -68,24 +70,26 @@ pub fn peer_doc(o: &PeerOpts) -> String {
         "<scxml xmlns=\"http://www.w3.org/2005/07/scxml\" version=\"1.0\" datamodel=\"rfsm-expression\" name=\"{}\" initial=\"idle\">\n",
         o.name
     ));
-    s.push_str(" <datamodel><data id=\"n\" expr=\"0\"/><data id=\"t\" expr=\"0\"/><data id=\"g\" expr=\"0\"/><data id=\"a\" expr=\"0\"/></datamodel>\n <state id=\"idle\">\n  <onentry>");
+    s.push_str(" <datamodel><data id=\"n\" expr=\"0\"/><data id=\"t\" expr=\"0\"/><data id=\"g\" expr=\"0\"/><data id=\"a\" expr=\"0\"/><data id=\"me\" expr=\"'#_scxml_' + _sessionid\"/><data id=\"z\" expr=\"''\"/></datamodel>\n <state id=\"idle\">\n  <onentry>");
     for g in &o.greet {
         s.push_str(&format!("<send target=\"#_scxml_{}\" event=\"hello\"/>", g));
     }
+    let tick_target = if o.target_var { " targetexpr=\"me\"" } else { "" };
+    let read_me = if o.target_var { "<assign location=\"z\" expr=\"me + 'x'\"/><assign location=\"z\" expr=\"'y' + me\"/>" } else { "" };
     if o.ticks > 0 {
-        s.push_str(&format!("<send event=\"tick\" delay=\"{}ms\"/>", o.tick_ms));
+        s.push_str(&format!("<send event=\"tick\" delay=\"{}ms\"{}/>", o.tick_ms, tick_target));
     }
     if o.go_on_start {
         s.push_str("<if cond=\"g == 0\"><assign location=\"g\" expr=\"1\"/><raise event=\"go\"/></if>");
     }
     s.push_str("</onentry>\n");
-    s.push_str("  <transition event=\"hello\"><send targetexpr=\"_event.origin\" event=\"hi\"/></transition>\n");
-    s.push_str("  <transition event=\"hi\"><assign location=\"n\" expr=\"n + 1\"/></transition>\n");
+    s.push_str(&format!("  <transition event=\"hello\"><send targetexpr=\"_event.origin\" event=\"hi\"/>{}</transition>\n", read_me));
+    s.push_str(&format!("  <transition event=\"hi\"><assign location=\"n\" expr=\"n + 1\"/>{}</transition>\n", read_me));
     s.push_str(&format!("  <transition event=\"tick\" cond=\"t &lt; {}\"><assign location=\"t\" expr=\"t + 1\"/>", o.ticks));
     for g in &o.greet {
         s.push_str(&format!("<send target=\"#_scxml_{}\" event=\"hello\"/>", g));
     }
-    s.push_str(&format!("<send event=\"tick\" delay=\"{}ms\"/></transition>\n", o.tick_ms));
+    s.push_str(&format!("{}<send event=\"tick\" delay=\"{}ms\"{}/></transition>\n", read_me, o.tick_ms, tick_target));
     s.push_str("  <transition event=\"go\" target=\"work\"/>\n");
     s.push_str("  <transition event=\"ping\"><script>mark('pong')</script></transition>\n </state>\n <state id=\"work\">\n");
     if let Some(c) = &o.invoke {
@@ -171,6 +175,7 @@ impl Property for C17Prop {
                 invoke: if rng.chance(1, 2) || exp { Some(mk_child(rng)) } else { None },
                 go_on_start: rng.chance(1, 4) || exp,
                 poke_kid: rng.chance(1, 2),
+                target_var: rng.chance(1, 2),
             };
             docs.push(DocSrc { name: o.name.clone(), xml: peer_doc(&o), via_rfsm: false, model: None });
         }
@@ -184,6 +189,7 @@ impl Property for C17Prop {
                 invoke: if rng.chance(1, 3) { Some(mk_child(rng)) } else { None },
                 go_on_start: rng.chance(1, 3),
                 poke_kid: rng.chance(1, 2),
+                target_var: rng.chance(1, 2),
             };
             docs.push(DocSrc { name: o.name.clone(), xml: peer_doc(&o), via_rfsm: false, model: None });
         }
